@@ -36,42 +36,54 @@ def run(rep: Report, repo: Repo, tier: str) -> None:
 
 def rule_prefix_default(rep: Report, repo: Repo, rule: str) -> None:
     import ast
-    from ..model import norm, walk_no_nested
+    from ..model import norm, walk_no_nested, guards_of, guard_atoms, call_name
     rep.rule(rule, "for a directory input the prefix defaults to the base name of the input path as given and is stored in the "
                    "per-input settings copy; a lone file gets no default prefix")
     fn = repo.func("cminx", "document")
-    src = {norm(n.targets[0]): norm(n.value) for n in walk_no_nested(fn) if isinstance(n, ast.Assign) and len(n.targets) == 1}
-    BASE = "os.path.basename(os.path.normpath(input_file))"
+    parents = repo.module("cminx").parents
+    in_param = fn.args.args[0].arg
+    settings_param = fn.args.args[1].arg if len(fn.args.args) > 1 else "settings"
+    assigns = [n for n in walk_no_nested(fn) if isinstance(n, ast.Assign) and len(n.targets) == 1]
+    src = {norm(n.targets[0]): norm(n.value) for n in assigns}
+    # the roles, by what the names are bound to (not by how they are called)
+    copy_var = next((norm(n.targets[0]) for n in assigns if isinstance(n.value, ast.Call) and call_name(n.value) in ("copy.deepcopy", "deepcopy")
+                     and n.value.args and norm(n.value.args[0]) == settings_param), None)
+    store = next((n for n in assigns if isinstance(n.targets[0], ast.Attribute) and norm(n.targets[0]).endswith(".rst.prefix")), None)
+    pvar = norm(store.value) if store is not None and isinstance(store.value, ast.Name) else \
+        next((norm(n.targets[0]) for n in assigns if isinstance(n.targets[0], ast.Name) and norm(n.value) == f"{settings_param}.rst.prefix"), None)
+    BASE = f"os.path.basename(os.path.normpath({in_param}))"
     lde = next((k for k, v in src.items() if v == BASE), None)
-    # accepted forms: prefix = prefix if prefix is not None else <base>   /   if prefix is None: prefix = <base>
+
     def is_base(txt):
         return txt == BASE or (lde is not None and txt == lde)
     ok = False
-    val = src.get("prefix")
-    if val is not None:
-        m1 = [b for b in (BASE, lde) if b and val in (f"prefix if prefix is not None else {b}", f"{b} if prefix is None else prefix")]
-        ok = bool(m1)
-    if not ok:
-        from ..model import guards_of
-        for n in walk_no_nested(fn):
-            if isinstance(n, ast.Assign) and norm(n.targets[0]) == "prefix" and is_base(norm(n.value)):
-                gs = guards_of(fn, n, repo.module("cminx").parents)
-                ok = any((norm(g.test) == "prefix is None" and g.polarity) or (norm(g.test) == "prefix is not None" and not g.polarity)
-                         for g in gs)
-    rep.check(lde is not None or ok, rule, "cminx:document", "default prefix = basename(normpath(input_file))",
+    val = None
+    if pvar is not None:
+        defs = [n for n in assigns if norm(n.targets[0]) == pvar]
+        for n in defs:
+            v = norm(n.value)
+            if v == f"{settings_param}.rst.prefix":
+                continue
+            val = v
+            # prefix = prefix if prefix is not None else <base>   /   <base> if prefix is None else prefix
+            if any(b_ and v in (f"{pvar} if {pvar} is not None else {b_}", f"{b_} if {pvar} is None else {pvar}") for b_ in (BASE, lde)):
+                ok = True
+            # if prefix is None: prefix = <base>
+            if is_base(v):
+                facts = guard_atoms(guards_of(fn, n, parents))
+                if (f"{pvar} is None", True) in facts or (f"{pvar} is not None", False) in facts:
+                    ok = True
+    rep.check(lde is not None or ok, rule, "cminx:document", "default prefix = basename(normpath(<input as given>))",
               "the default prefix is not the input directory's name", witness="cminx -r path/to/tree")
     rep.check(ok, rule, "cminx:document", f"prefix defaulting: {val}", "an explicit prefix does not override the default (or vice versa)",
               witness="cminx -p pre -r tree")
-    rep.check(src.get("new_settings.rst.prefix") == "prefix", rule, "cminx:document", "new_settings.rst.prefix = prefix",
+    ok_store = store is not None and copy_var is not None and norm(store.targets[0]) == f"{copy_var}.rst.prefix" and norm(store.value) == pvar
+    rep.check(ok_store, rule, "cminx:document", f"{norm(store.targets[0]) if store is not None else '<copy>.rst.prefix'} = {pvar}",
               "the effective prefix is not handed to document_single_file through the settings copy")
-    # assigned only in the directory branch
-    for n in walk_no_nested(fn):
-        if isinstance(n, ast.Assign) and norm(n.targets[0]) == "new_settings.rst.prefix":
-            from ..model import guards_of, guard_atoms
-            gs = guards_of(fn, n, repo.module("cminx").parents)
-            facts = guard_atoms(gs)
-            rep.check(any(t.startswith("os.path.isdir(") and "input" in t and pol for t, pol in facts), rule, "cminx:document",
-                      "default prefix only for directory inputs", "a lone input file receives a default prefix")
+    if store is not None:
+        facts = guard_atoms(guards_of(fn, store, parents))
+        rep.check(any(t.startswith("os.path.isdir(") and pol for t, pol in facts), rule, "cminx:document",
+                  "default prefix only for directory inputs", "a lone input file receives a default prefix")
     rep.floor(rule, 4, "prefix default facts")
 
 
